@@ -11,6 +11,8 @@ PROPS["C11"] = {
     "rule": "digest: random byte strings (0..2000 bytes) under random chunkings incl. empty writes, three CRC implementations; "
             "verify: emitted DUMP payloads, EVERY single-byte substitution (255 values x every position) of generated payloads, "
             "every truncation, a version-field sweep with matching checksum, random strings; footer: intact and byte-flipped, also delivered to the loader in pieces (short reads, byte by byte, data with EOF, empty reads). "
+            "ldfile: whole RDB files through utils.NewRDBLoader (entry point of sync/restore/decode) in a child process under big_key_threshold 1/2/16/50 MB/500 MB, "
+            "target.version, parallel, key_exists: intact, one value byte changed, one checksum byte changed, checksum cut short. "
             "non-trivial = every case except random-noise verify inputs shorter than 10 bytes; distinct by case text",
     "nontrivial": lambda c, i: not (c.startswith("verify") and len(c.split()[1]) < 20),
     "trusted": ["external module github.com/cupcake/rdb/crc64 (used by CheckVersionChecksum) is modelled by the bitwise spec and compared on every digest case",
